@@ -115,7 +115,8 @@ func (w *World) Deliver(msg sdk.Msg) (res TxResult) {
 	write()
 	evs := cctx.EventManager().ABCIEvents()
 	if r != nil {
-		_ = r
+		// the router runs the handler under its own event manager and returns its events in the result
+		evs = append(evs, r.Events...)
 	}
 	return TxResult{Events: evs}
 }
@@ -130,6 +131,7 @@ func (w *World) DeliverAll(msgs ...sdk.Msg) (res TxResult) {
 			res = TxResult{Panic: r, Stack: string(debug.Stack())}
 		}
 	}()
+	var evs []abci.Event
 	for _, msg := range msgs {
 		if vb, ok := msg.(validateBasic); ok {
 			if err := vb.ValidateBasic(); err != nil {
@@ -140,12 +142,16 @@ func (w *World) DeliverAll(msgs ...sdk.Msg) (res TxResult) {
 		if h == nil {
 			return TxResult{Err: fmt.Errorf("no handler for %T", msg)}
 		}
-		if _, err := h(cctx, msg); err != nil {
+		r, err := h(cctx, msg)
+		if err != nil {
 			return TxResult{Err: err}
+		}
+		if r != nil {
+			evs = append(evs, r.Events...)
 		}
 	}
 	write()
-	return TxResult{Events: cctx.EventManager().ABCIEvents()}
+	return TxResult{Events: append(cctx.EventManager().ABCIEvents(), evs...)}
 }
 
 // EndBlock closes the block being built with the real FinalizeBlock + Commit and opens the next
